@@ -58,6 +58,9 @@ func shapeOfL(sc *jp.Script, loose bool) (res any) {
 			o := v.Elem()
 			name := o.FieldByName("name").String()
 			cnt := int(o.FieldByName("cnt").Uint())
+			if loose && name == "(" && cnt == 1 { // a parenthesis group is transparent
+				return next()
+			}
 			m := map[string]any{"op": name}
 			if 1 <= cnt {
 				m["l"] = next()
